@@ -2,7 +2,7 @@
 SPECIFICATION Spec
 CONSTANTS
   NIf = 2
-  Kinds = {"ok", "fail", "late"}
+  Kinds = {"ok", "fail"}
   Req = {"res1", "shut1"}
   Repaired = TRUE
   FixNoIf = TRUE
